@@ -100,6 +100,7 @@ type c01Env struct {
 	origin *httptest.Server
 	omu    sync.Mutex
 	obody  map[string]originEntry
+	tiny   map[string]bool // digests of tiny blobs already used by a case on this server
 }
 
 type originEntry struct {
@@ -183,6 +184,16 @@ func (e *c01Env) runCase(cs c01Case) c01Result {
 	tag := fmt.Sprintf("C01-s%d-c%d", e.r.Seed, cs.ID)
 	B := lib.GenBlob(rng, cs.Size, cs.Content, tag)
 	res := c01Result{hash: lib.Sha256Hex(B), size: int64(len(B)), valid: true}
+	if cs.Size < 16 {
+		// tiny contents collide between cases (only 256 one-byte blobs exist): every case needs a digest of its own
+		e.omu.Lock()
+		dup := e.tiny[res.hash]
+		e.tiny[res.hash] = true
+		e.omu.Unlock()
+		if dup {
+			return c01Result{skip: true}
+		}
+	}
 	srv := e.srv
 	ctx, cancel := lib.Ctx()
 	defer cancel()
@@ -381,24 +392,30 @@ func (e *c01Env) runCase(cs c01Case) c01Result {
 	case "splice", "splice-nodigest":
 		// chunks are uploaded first through the disk API (valid), then spliced
 		// at least two chunks, so that the spliced blob itself is never stored as one of its chunks
+		// every chunk is at least 16 bytes long: tiny chunk blobs would collide with the tiny blobs of other cases
 		nchunks := 2 + rng.IntN(3)
-		if len(B) < 2 {
+		if len(B) < 32 {
 			return c01Result{skip: true}
 		}
-		if len(B) < nchunks {
+		if len(B) < 16*nchunks {
 			nchunks = 2
 		}
 		var chunks [][]byte
 		cuts := []int{0}
 		for i := 1; i < nchunks; i++ {
-			cuts = append(cuts, 1+rng.IntN(len(B)-1))
+			cuts = append(cuts, 16+rng.IntN(len(B)-31))
 		}
 		cuts = append(cuts, len(B))
 		sortInts(cuts)
 		for i := 0; i+1 < len(cuts); i++ {
-			if cuts[i+1] > cuts[i] {
+			if cuts[i+1]-cuts[i] >= 16 || i+2 == len(cuts) {
 				chunks = append(chunks, B[cuts[i]:cuts[i+1]])
+			} else {
+				cuts[i+1] = cuts[i] // merge a too-short piece into the next one
 			}
+		}
+		if n := len(chunks); n > 0 && len(chunks[n-1]) < 16 {
+			return c01Result{skip: true}
 		}
 		if len(chunks) < 2 {
 			return c01Result{skip: true}
@@ -549,7 +566,7 @@ func (e *c01Env) judge(cs c01Case, res c01Result, B []byte) {
 				}
 			}
 		}
-	} else if present {
+	} else if present && cs.Size >= 16 { // (digests of tiny contents may legitimately be present: e.g. as a chunk of a spliced blob)
 		r.Violation(key+":refused-but-present", fmt.Sprintf("refused upload (%s) left the claimed digest (%s,%d) present: findmissing=%v head=%d get=%d", res.status, res.hash, res.size, p.FindMissingPresent, p.HeadStatus, p.GetStatus), detail)
 	}
 }
@@ -564,7 +581,7 @@ func runC01(r *lib.Run) {
 	cfgs := []cfg{{"zstd", "go"}, {"uncompressed", "go"}, {"zstd", "cgo"}, {"uncompressed", "cgo"}}
 	id := 0
 	for ci, cf := range cfgs {
-		e := &c01Env{r: r, obody: map[string]originEntry{}}
+		e := &c01Env{r: r, obody: map[string]originEntry{}, tiny: map[string]bool{}}
 		e.origin = httptest.NewServer(http.HandlerFunc(e.originHandler))
 		srv, err := lib.StartServer(lib.ServerOpts{MaxSize: 64 << 30, Storage: cf.storage, ZstdImpl: cf.impl, AssetAPI: true})
 		if err != nil {
